@@ -6,9 +6,11 @@ oracle (independent of the model): interval arithmetic on bin extents, written f
 """
 import itertools
 
+import os
 import common
 
 TRUSTED = ["Python int semantics of >> (arithmetic shift) = Int.shiftRight (validated by the correspondence)"]
+TRANSLATION_TIE = True        # vcheck: harness/gentie.py (bins.py translated to Lean, proved equal to the model)
 LEANCHECKER_MODULES = ["GffProofs.Props.C12"]
 
 M = 2 ** 29
@@ -24,6 +26,33 @@ def bin_extent(b):
             i = b - OFFS[k]
             return (i * SIZES[k], (i + 1) * SIZES[k], k)
     return None
+
+
+def source_literals():
+    import ast
+    import gffutils.bins as B_
+    out = set()
+    try:
+        tree = ast.parse(open(B_.__file__, encoding="utf-8").read())
+        import sys as _sys
+        _sys.path.insert(0, os.path.join(common.VERIF, "tools"))
+        import py2lean
+        env = {k: v for k, v in py2lean.module_constants(tree).items() if isinstance(v, int)}
+        for n in ast.walk(tree):
+            if isinstance(n, ast.Constant) and isinstance(n.value, int) and not isinstance(n.value, bool):
+                out.add(n.value)
+            elif isinstance(n, (ast.BinOp, ast.UnaryOp)):
+                try:
+                    out.add(py2lean.const_int(n, env))        # a constant subexpression such as 2**29 or 10**15 + 7
+                except Exception:
+                    pass
+    except Exception:
+        pass
+    for name in dir(B_):
+        v = getattr(B_, name)
+        if isinstance(v, int) and not isinstance(v, bool):
+            out.add(v)
+    return sorted(c for c in out if abs(c) < 10 ** 30)
 
 
 def coords(ctx, n_target):
@@ -42,9 +71,16 @@ def coords(ctx, n_target):
         for m in mults:
             for d in (-2, -1, 0, 1, 2):
                 pts.add(m * SIZES[k] + d)
+    # every integer literal / integer module constant of the bins.py imported NOW, +-2: a threshold written into the source
+    # is a boundary of its behaviour whether or not it is one of the scheme's (directed search for a failing input)
+    lits = source_literals()
+    for c in lits:
+        for d in (-2, -1, 0, 1, 2):
+            pts.add(c + d)
     pts = sorted(pts)
     if len(pts) > n_target:
         keep = set(pts[:8] + pts[-8:])
+        keep.update(x for x in pts if any(abs(x - c) <= 2 for c in lits))
         keep.update(x for x in pts if abs(x) <= 2 or abs(x - M) <= 2)
         rest = [x for x in pts if x not in keep]
         r.shuffle(rest)
